@@ -6,8 +6,8 @@
     (a) asks whether the model can produce that very log (mode A: acceptance by
         subset construction) -- tag 1 when it cannot, and
     (b) applies the property itself, as small deterministic monitors that do
-        not know the model, to the log -- tags 2..8, or 10+k inside a
-        known-finding class. *)
+        not know the model, to the log -- tags 2..8 (10+k would be a
+        known-finding class; none is open for C13). *)
 From Coq Require Import List Bool ZArith NArith Arith Lia.
 Import ListNotations.
 From Gnmi Require Import Manager.ManagerModel.
@@ -159,8 +159,9 @@ Fixpoint k_cause (timeout : bool) (rc : nat) (rm : bool) (tr : list event) : boo
       end
   end.
 
-(** known-finding class 1 (KF-C13-1 / DEFECT C13_1): the name was removed and
-    added again earlier in the log *)
+(** former known-finding class 1 (KF-C13-1 / DEFECT C13_1, fixed by ada8f84):
+    the name was removed and added again earlier in the log.  It is no
+    longer a class of its own: a recurrence is tag 7, a violation. *)
 Definition readded (tr : list event) : bool :=
   existsb (fun e => match e with ERemoveReturned true => true | _ => false end) tr.
 
@@ -193,8 +194,7 @@ Definition k_tags (c : cfg) (tr : list event) : list N :=
   ++ (if k_silence false tr then [] else [4%N])
   ++ (if k_refuse false tr then [] else [5%N])
   ++ (if k_live tr then [] else [6%N])
-  ++ (if k_cause (c_timeout c) 0 false tr then []
-      else if readded tr then [11%N] else [7%N]).
+  ++ (if k_cause (c_timeout c) 0 false tr then [] else [7%N]).
 
 Definition check_target (t : tcase) : list N :=
   (if accepts (t_cfg t) (t_trace t) then [] else [1%N]) ++ k_tags (t_cfg t) (t_trace t)
